@@ -558,7 +558,47 @@ func evalBinary(bin string, w *wm.World, x *fw.Rec) {
 			}
 		}
 	}
+	// external addresses: --source-ip A -d pod and -s pod --destination-ip A at one boundary address of the IP partition
+	if len(tr.IPs) > 0 {
+		lo := tr.IPs[len(tr.IPs)/2][0]
+		addr := fmt.Sprintf("%d.%d.%d.%d", lo>>24, lo>>16&255, lo>>8&255, lo&255)
+		for wi := range w.WLs {
+			p := &w.WLs[wi]
+			for _, fromIP := range []bool{true, false} {
+				for _, port := range []int{pts[len(pts)/3], 80} {
+					n++
+					args := []string{"eval", "--dirpath", dir, "-q", "-p", fmt.Sprint(port), "--protocol", "tcp"}
+					var want bool
+					var expLine string
+					if fromIP {
+						args = append(args, "--source-ip", addr, "-d", p.Name, "--destination-namespace", p.NS)
+						want = contains(tr.At("", p.PeerString(), lo, true, false), "TCP", port)
+						expLine = fmt.Sprintf("%s => %s/%s over tcp/%d: %t", addr, p.NS, p.Name, port, want)
+					} else {
+						args = append(args, "-s", p.Name, "-n", p.NS, "--destination-ip", addr)
+						want = contains(tr.At(p.PeerString(), "", lo, false, true), "TCP", port)
+						expLine = fmt.Sprintf("%s/%s => %s over tcp/%d: %t", p.NS, p.Name, addr, port, want)
+					}
+					out, err := exec.Command(bin, args...).CombinedOutput()
+					line := strings.TrimSpace(string(out))
+					if err != nil {
+						x.Fail("[CLI binary] eval with an external address exits with an error where list answers", "", fmt.Sprintf("args %v: %v\n%s", args[4:], err, firstLines(line, 3)))
+					} else if !strings.HasSuffix(line, expLine) {
+						x.Fail("[CLI binary] eval prints a verdict that differs from list", "", fmt.Sprintf("expected line %q, got %q", expLine, line))
+					}
+				}
+			}
+		}
+	}
 	x.Count("cli_spawns", int64(n))
 	x.Outcome(tr.OutcomeKey())
 	x.Nontrivial(tr.OutcomeKey())
+}
+
+func firstLines(s string, k int) string {
+	l := strings.Split(s, "\n")
+	if len(l) > k {
+		l = l[:k]
+	}
+	return strings.Join(l, "\n")
 }
